@@ -72,7 +72,18 @@ func (c *Ctx) closeShard() {
 // Emit records one evaluated case: its JSON form (inputs and observations, used for replay
 // and samples), its Coq term, a key telling whether it is non-trivial/distinct (empty = trivial),
 // a histogram class and a signature used to match known findings.
+// Pending records the case that is about to be run: when the implementation takes the process down (a panic in
+// one of its goroutines, a fatal error) the check finds here the input that did it.
+func (c *Ctx) Pending(caseJSON interface{}) {
+	raw, err := json.Marshal(caseJSON)
+	if err != nil {
+		return
+	}
+	_ = os.WriteFile(filepath.Join(c.Out, "pending.json"), raw, 0o644)
+}
+
 func (c *Ctx) Emit(caseJSON interface{}, coqTerm string, distinctKey string, class string, sig string) {
+	_ = os.Remove(filepath.Join(c.Out, "pending.json"))
 	if c.w == nil {
 		c.openShard()
 	}
